@@ -251,6 +251,47 @@ def check_case(case):
             out += [dict(x, case=dict(x["case"], after_long_sequences=True, kind="long-then-short", L=case["L"], words=case["words"],
                                       sizes=case["sizes"])) for x in o2]
             calls += c2
+    elif case["kind"] == "inplace-dict":
+        # ONE dictionary object, edited in place between calls on ONE live object (progressive coarse-graining from the identity
+        # map); every call must see the dictionary as it is now.  Then an in-place edit that makes it invalid: must be rejected.
+        from localcider.sequenceParameters import SequenceParameters as SP
+        seq = case["host"]
+        o = SP(seq)
+        d = {a: a for a in T.AA}
+        merges = [("R", "K"), ("D", "E"), ("T", "S"), ("I", "L"), ("V", "L"), ("Q", "N"), ("Y", "F"), ("W", "F"), ("H", "K"), ("M", "L")]
+        for step, (a, b) in enumerate([(None, None)] + merges):
+            if a is not None:
+                d[a] = b
+            for typ, w in (("WF", 8), ("LZW", 6), ("LC", 8)):
+                calls += 1
+                try:
+                    arr = np.asarray(o.get_linear_complexity(typ, userAlphabet=d, blobLen=w, wordSize=2))
+                except Exception as e:  # noqa
+                    out.append({"key": "rejects-valid-call", "what": "%s after %d in-place merges raised %r" % (typ, step, e), "case": dict(case, step=step)})
+                    continue
+                fresh = np.asarray(SP(seq).get_linear_complexity(typ, userAlphabet=dict(d), blobLen=w, wordSize=2))
+                if arr.shape != fresh.shape or not np.allclose(arr, fresh, rtol=1e-12, atol=1e-13):
+                    out.append({"key": "user-alphabet-edited-in-place-ignored", "what": "%s: after %d in-place merges of the SAME dictionary object the "
+                                "reused object gives %r, a fresh object with a copy of the dictionary %r" % (typ, step, arr[1].tolist()[:4], fresh[1].tolist()[:4]),
+                                "case": dict(case, step=step, type=typ)})
+                    break
+                if typ == "WF":
+                    for k in (0, len(seq) - w):
+                        red, A = reduce_ref(seq[k:k + w], None, d)
+                        if not core.close(arr[1][k], entropy(red, A), 1e-9, 1e-12):
+                            out.append({"key": "WF-entropy", "what": "after %d in-place merges window %d: %r vs entropy %r (base %d)"
+                                        % (step, k, float(arr[1][k]), entropy(red, A), A), "case": dict(case, step=step)})
+                            break
+        for bad in ("x", "", None, "KK"):
+            d["A"] = bad
+            calls += 1
+            try:
+                r = o.get_linear_complexity("WF", userAlphabet=d, blobLen=8)
+                out.append({"key": "invalid-user-alphabet-accepted", "what": "the dictionary accepted before, edited in place so that A maps to %r, was "
+                            "accepted again on the same object" % (bad,), "case": dict(case, bad=repr(bad))})
+            except Exception:  # noqa
+                pass
+        d["A"] = "A"
     elif case["kind"] == "lattice":
         from localcider.sequenceParameters import SequenceParameters as SP
         N = case["N"]
@@ -313,6 +354,7 @@ def run(tier, seed, t0):
     # ... and over all 20 residues (every ordered pair of residues adjacent somewhere)
     for w in spaces.window_complete_chunks(T.AA, 2, (57,) if tier == "quick" else (29, 57, 81)):
         cases.append({"kind": "word", "seq": w, "sizes": [2, 4, 20] if tier == "quick" else sizes, "uas": uas[:1], "medium": True})
+    cases.append({"kind": "inplace-dict", "host": "ACDEFGHIKLMNPQRSTVWYKEKERDTSILVQNYWHM"})
     cases.append({"kind": "long-then-short", "L": 130, "sizes": [2, 3, 4, 6] if tier == "quick" else list(T.SIZES),
                   "words": ["LKF", "LKFF", "KFLKF", "ASTDE", "FFKL"]})
     cases.sort(key=lambda c: -(len(c["seq"]) ** 3 if "seq" in c else (c["N"] ** 2 / 8 if "N" in c else 10 ** 6)))
@@ -324,7 +366,7 @@ def run(tier, seed, t0):
              "x user alphabets %s x every window 1..N+1 x every step 1..N x word sizes 1..6 (LC): shape (2,floor((N-w)/s)+1), "
              "integral strictly increasing positions within 1..N, values in [0,1]; all configurations of a word are asked of ONE live object; locality (each value == the one-window profile "
              "of a fresh object built from that window), WF == Shannon entropy to base alphabet-size of the independently reduced "
-             "window (medium words: WF at every window length), the alphabet size given as string / padded string / float / numpy number selects the same reduction, windows with equal reduced strings give equal values (all three types), w>N and 6 unknown types rejected; an array returned earlier must not be modified by a later call; in a freshly imported "
+             "window (medium words: WF at every window length), the alphabet size given as string / padded string / float / numpy number selects the same reduction, windows with equal reduced strings give equal values (all three types), w>N and 6 unknown types rejected; an array returned earlier must not be modified by a later call; one user-alphabet dictionary object edited in place between calls on one live object (10 merges, then 4 invalidating edits); in a freshly imported "
              "package four 130-residue sequences lacking whole reduced classes are profiled first and a battery of short words afterwards; plus every (N,w,s) with N<=%d on a periodic 20-letter sequence for shape "
              "and position row; non-trivial = words with >=2 distinct letters" % (N1, N2, sizes, uas, NL),
         bounds={"N_LKF": N1, "N_ASTDE": N2, "sizes": sizes, "user_alphabets": uas, "lattice_N": NL},
